@@ -67,6 +67,30 @@ def chk_collect(case, acc, seed):
                         acc.violation(f'collect:spectrum:{"same-unit" if su == wu else "mixed-unit"}', dict(sub, spectrum_unit=su, waveunit=wu),
                                       f'spectrum efficiency (spectrum in {su}, wavelengths in {wu}) differs from the vector form by {rm.maxerr(got, exp):.3e}')
                     acc.transitions += 1
+                    # the same Spectrum object, edited, then used again: the efficiency in force is the edited one
+                    if su == wu or (su, wu) in (('nm', 'um'), ('um', 'm')):
+                        for edit in ('value', 'inplace', 'crop'):
+                            s = Spectrum(grid_nm / TO_NM[su], vals.copy(), waveunit=su)
+                            try:
+                                lentil.detector.collect_charge(img, w_in, s, waveunit=wu)
+                                if edit == 'value':
+                                    s.value = np.asarray(s.value) * 0.5
+                                    exp2 = exp * 0.5
+                                elif edit == 'inplace':
+                                    s.value[...] = np.asarray(s.value) * 0.25
+                                    exp2 = exp * 0.25
+                                else:
+                                    lo = 500.0 * (s.wave[0] / 400.0)          # 500 nm in the unit the spectrum is held in now
+                                    s.crop(lo, s.wave[-1] * 2)
+                                    exp2 = sum(img[i] * (qv[i] if waves[i] >= 500.0 else 0.0) for i in range(nw))
+                                got2 = lentil.detector.collect_charge(img, w_in, s, waveunit=wu)
+                            except Exception as e:
+                                acc.violation(f'collect:spectrum-edited:raises:{type(e).__name__}', dict(sub, spectrum_unit=su, waveunit=wu, edit=edit), repr(e))
+                                continue
+                            if rm.maxerr(got2, exp2) > 1e-9 * (1 + np.max(np.abs(exp))):
+                                acc.violation('collect:spectrum-edited', dict(sub, spectrum_unit=su, waveunit=wu, edit=edit),
+                                              f'after editing the efficiency Spectrum ({edit}) collect_charge is off the edited efficiency by {rm.maxerr(got2, exp2):.3e}')
+                            acc.cls('collect:edited-spectrum')
         if not np.array_equal(img, img0):
             acc.violation('collect:input-mutated', sub, 'photon cube modified')
     acc.cls('collect')
@@ -160,6 +184,10 @@ GAINS = {
     'poly2neg': [-2.0 ** -6, 1.5],
     'poly2big': [1.0, 0.5],
     'scalarneg': -0.5,
+    'poly2zero': [2.0 ** -6, 0.0],               # 2^-6 e^2: the linear coefficient is exactly zero
+    'poly3mid0': [2.0 ** -12, 0.0, 0.25],
+    'polylead0': [0.0, 0.5],
+    'poly3zz': [2.0 ** -12, 0.0, 0.0],
     'pixel': 'pixel',
     'pixelpoly': 'pixelpoly',
 }
@@ -337,7 +365,7 @@ def run(tier, seed, acc, procs=None):
         'assumptions': ['dyadic electron counts and gains: every intermediate is exact in binary floating point',
                         'pattern strings are read row-major'],
         'require': {'bayer:k=2': 1000, 'bayer:k=3': 1000, 'bayer:os=3': 500, 'bayer:os=4': 500, 'adc:polynomial': 50, 'adc:per-pixel': 20,
-                    'adc:per-pixel-polynomial': 20, 'adc:scalar': 20, 'collect': 9},
+                    'adc:per-pixel-polynomial': 20, 'adc:scalar': 20, 'collect': 9, 'collect:edited-spectrum': 50},
     }
 
 
